@@ -664,4 +664,141 @@ example : byvalRank [.str "c", .str "a", .str "f"] (.str "a") = 1 :=
 example : byvalRank [.str "c", .str "a"] (.str "a") < byvalRank [.str "c", .str "a"] (.str "zz") :=
   byval_unlisted_last _ (by decide) _ _ ⟨.str "a", by decide, by decide⟩ (by decide)
 
+/-! ## Round i2 (review t2): missing dates, the numeric clauses at full strength, the list-level step for `sort` -/
+
+section round_i2
+
+/-- **"0 for numerically equal ints and floats", at full strength** (review t2: `cmp_int_float` covers only the pair `n`, `4n/4`):
+an int against a float is compared EXACTLY, by the integers `4n` and `q` (`flt q` is `q/4`) - no rounding through float64
+(the point of fix c8131a6) -/
+theorem cmp_int_flt (n q : Int) : cmp (.cell (.int n)) (.cell (.flt q)) = compare (4 * n) q := by
+  simp [cmp, Val.norm, cmpN, Cell.cmp, Cell.cmpSame, Cell.rank, Cell.num, Cell.skey]
+
+theorem cmp_flt_int (q n : Int) : cmp (.cell (.flt q)) (.cell (.int n)) = compare q (4 * n) := by
+  simp [cmp, Val.norm, cmpN, Cell.cmp, Cell.cmpSame, Cell.rank, Cell.num, Cell.skey]
+
+/-- ... so it is 0 exactly for numerically equal values -/
+theorem cmp_int_flt_eq_iff (n q : Int) : cmp (.cell (.int n)) (.cell (.flt q)) = .eq ↔ 4 * n = q := by
+  rw [cmp_int_flt]; exact Int.compare_eq_eq
+
+/-- the numbers: ints, finite floats, the infinities and NaN -/
+def isNumCell : Cell → Bool
+  | .int _ | .flt _ | .pinf | .ninf | .nan => true
+  | _ => false
+
+/-- **NaN ranks above every other number**, the infinities included (review t2: `nan_top_int/flt` say nothing about `+inf`) -/
+theorem nan_top (c : Cell) (h : isNumCell c = true) (hn : c ≠ .nan) : cmp (.cell c) (.cell .nan) = .lt := by
+  cases c <;> simp_all [isNumCell] <;> rfl
+
+example : isNumCell .pinf = true ∧ Cell.pinf ≠ .nan ∧ cmp (.cell .pinf) (.cell .nan) = .lt := by decide
+
+/-! ### the missing date (`pd.NaT`, `np.datetime64('NaT')`): review t2 V1 / V2 -/
+
+/-- `cmpNaT` is `cmp` on values -/
+theorem cmpNaT_val (a b : Val) : cmpNaT (.val a) (.val b) = cmp a b := rfl
+
+/-- NaT is above every datetime ... -/
+theorem nat_top (us : Int) : cmpNaT (.val (.cell (.dt us))) .nat = .lt := by
+  simp [cmpNaT, Val.rank, Cell.rank]
+
+/-- ... equal to NaT, whatever the identity or the spelling ... -/
+theorem nat_eq_nat : cmpNaT .nat .nat = .eq := rfl
+
+/-- ... and against anything else it is placed by its type rank, that of `datetime.datetime` (`.rank = 2`): above `None`, bools,
+below dicts, numbers, lists, strings and tuples -/
+theorem nat_vs_val (v : Val) : cmpNaT .nat (.val v) = if v.rank ≤ 2 then .gt else .lt := by
+  simp only [cmpNaT]
+  rcases Nat.lt_trichotomy 2 v.rank with h | h | h
+  · rw [Nat.compare_eq_lt.2 h, if_neg (by omega)]; rfl
+  · rw [← h]; simp
+  · rw [Nat.compare_eq_gt.2 h, if_pos (by omega)]; rfl
+
+/-- antisymmetry with the missing date among the values (false of the code before fix 452a540: `cmp` of two
+`np.datetime64('NaT')` was -1 both ways) -/
+theorem cmpNaT_antisymm (a b : ValN) : cmpNaT a b = (cmpNaT b a).swap := by
+  cases a <;> cases b <;> simp only [cmpNaT]
+  · rfl
+  · rename_i v; rw [swap_compare v.rank 2]; cases compare 2 v.rank <;> rfl
+  · rename_i v; rw [swap_compare 2 v.rank]; cases compare v.rank 2 <;> rfl
+  · exact cmp_antisymm _ _
+
+/-- transitivity with the missing date among the values (false of the code between 7a44481 and fix 72de39d: `cmp(t, NaT) == 0 ==
+cmp(NaT, t')` for all datetimes) -/
+theorem cmpNaT_trans (a b c : ValN) : (cmpNaT a b).isLE → (cmpNaT b c).isLE → (cmpNaT a c).isLE := by
+  have f1 : ∀ v : Val, (cmpNaT .nat (.val v)).isLE = true → 2 < v.rank := by
+    intro v h; rw [nat_vs_val] at h; split at h
+    · simp at h
+    · omega
+  have f1' : ∀ v : Val, 2 < v.rank → (cmpNaT .nat (.val v)).isLE = true := by
+    intro v h; rw [nat_vs_val, if_neg (by omega)]; rfl
+  have f2 : ∀ v : Val, (cmpNaT (.val v) .nat).isLE = true → v.rank ≤ 2 := by
+    intro v h; rw [cmpNaT_antisymm, nat_vs_val] at h; split at h
+    · assumption
+    · simp [Ordering.swap] at h
+  have f2' : ∀ v : Val, v.rank ≤ 2 → (cmpNaT (.val v) .nat).isLE = true := by
+    intro v h; rw [cmpNaT_antisymm, nat_vs_val, if_pos h]; rfl
+  intro h1 h2
+  cases a <;> cases b <;> cases c
+  · rfl
+  · exact h2
+  · rfl
+  · rename_i v w; exact f1' _ (Nat.lt_of_lt_of_le (f1 _ h1) (cmp_rank_le _ _ h2))
+  · exact h1
+  · rename_i v w
+    have := cmp_of_rank_lt v w (Nat.lt_of_le_of_lt (f2 _ h1) (f1 _ h2))
+    simp [cmpNaT, this]
+  · rename_i v w; exact f2' _ (Nat.le_trans (cmp_rank_le _ _ h1) (f2 _ h2))
+  · exact cmp_trans _ _ _ h1 h2
+
+/-- V1 of review t2 on the model: a datetime, NaT, a later datetime - consistent -/
+example : cmpNaT (.val (.cell (.dt 5))) .nat = .lt ∧ cmpNaT .nat (.val (.cell (.dt 9))) = .gt ∧
+    cmpNaT .nat (.val (.cell .none)) = .gt ∧ cmpNaT .nat (.val (.cell (.flt 4))) = .lt ∧ cmpNaT .nat (.val (.dict [])) = .lt := by decide
+
+/-! ### the list-level step for `sort` (review t2 item 4; `native_sorted_is_sortIdx` is its `dictable.sort` counterpart) -/
+
+/-- generic form: if a list is natively non-decreasing from each element to the NEXT one (no comparison raised), and the native
+comparison agrees with `cmp` on its members, the list is non-decreasing under `cmp` on EVERY pair -/
+theorem adjacent_native_pairwise {α : Type} (toV : α → Val) (P : α → Prop) (nat : α → α → Option Ordering)
+    (hag : ∀ a b, P a → P b → ∀ o, nat a b = some o → cmp (toV a) (toV b) = o)
+    (l : List α) (hP : ∀ a ∈ l, P a) (hadj : Adjacent (fun a b => ∃ o, nat a b = some o ∧ o ≠ .gt) l) :
+    (l.map toV).Pairwise (fun a b => cmpLe a b = true) := by
+  have key := Adjacent.imp (S := fun a b => cmpLe (toV a) (toV b) = true) (fun a b ⟨ha, hb, o, ho, hne⟩ => by
+      have := hag a b ha hb o ho
+      unfold cmpLe; rw [this]; cases o <;> simp_all) l (Adjacent.and_mem l hP hadj)
+  have hpw := Adjacent.pairwise (R := fun a b => cmpLe (toV a) (toV b) = true)
+    (fun a b c h1 h2 => cmpLe_trans (toV a) (toV b) (toV c) h1 h2) l key
+  exact List.pairwise_map.2 hpw
+
+/-- **`sort` on its native path returns a list that is non-decreasing under `cmp`**: whatever algorithm `sorted()` runs, if its
+output `l` - a permutation of the bool-free scalars `xs` - is natively `≤` from each element to the next (no comparison raised),
+then `l` is a permutation of `xs` ordered under `cmp` on every pair: the clause "returns a permutation of xs that is
+non-decreasing under cmp" for the path `sort` takes when it can.  Assumed about CPython: only that the output of `sorted()` is
+a permutation, adjacent-wise `≤`.  (So far this clause was proved for `List.mergeSort cmpLe` - the model's own definition - and
+bridged to the code pairwise only.) -/
+theorem native_sorted_is_sorted (xs l : List Cell) (hb : ∀ c ∈ xs, c.isBool = false) (hp : l.Perm xs)
+    (hadj : Adjacent (fun a b => ∃ o, a.native b = some o ∧ o ≠ .gt) l) :
+    (l.map Val.cell).Perm (xs.map Val.cell) ∧ (l.map Val.cell).Pairwise (fun a b => cmpLe a b = true) ∧
+      sort (l.map Val.cell) = l.map Val.cell :=
+  have hpw := adjacent_native_pairwise Val.cell (fun c => c.isBool = false) Cell.native
+    (fun a b ha hb' o h => native_agrees a b ha hb' o h) l (fun c hc => hb c (hp.mem_iff.1 hc)) hadj
+  ⟨hp.map _, hpw, sort_of_sorted _ hpw⟩
+
+/-- the same for equal-length tuples of bool-free scalars -/
+theorem native_sorted_is_sorted_tuple (xs l : List (List Cell)) (w : Nat) (hw : ∀ r ∈ xs, r.length = w)
+    (hb : ∀ r ∈ xs, ∀ c ∈ r, c.isBool = false) (hp : l.Perm xs)
+    (hadj : Adjacent (fun a b => ∃ o, nativeArr a b = some o ∧ o ≠ .gt) l) :
+    (l.map fun r => Val.tuple (r.map .cell)).Perm (xs.map fun r => Val.tuple (r.map .cell)) ∧
+      (l.map fun r => Val.tuple (r.map .cell)).Pairwise (fun a b => cmpLe a b = true) ∧
+      sort (l.map fun r => Val.tuple (r.map .cell)) = l.map fun r => Val.tuple (r.map .cell) :=
+  have hpw := adjacent_native_pairwise (fun r => Val.tuple (r.map .cell)) (fun r => r.length = w ∧ ∀ c ∈ r, c.isBool = false) nativeArr
+    (fun a b ha hb' o h => native_agrees_tuple a b (by rw [ha.1, hb'.1]) ha.2 hb'.2 o h) l
+    (fun r hr => ⟨hw r (hp.mem_iff.1 hr), hb r (hp.mem_iff.1 hr)⟩) hadj
+  ⟨hp.map _, hpw, sort_of_sorted _ hpw⟩
+
+/-- the hypotheses on a concrete list: `sorted([3, 1, 1.0])` = `[1, 1.0, 3]` -/
+example : Adjacent (fun a b => ∃ o, Cell.native a b = some o ∧ o ≠ .gt) [Cell.int 1, .flt 4, .int 3] :=
+  ⟨⟨.eq, by decide, by decide⟩, ⟨.lt, by decide, by decide⟩, trivial⟩
+
+end round_i2
+
 end Pyg.Props.C07
